@@ -138,6 +138,8 @@ PROFILES = [
     {'Sort': 1, 'SeparatePackage': 'auto'},
     {'NoOptions': True},
     {'Sort': 2, 'SeparatePackage': 'override'},
+    # the target package has the same NAME as the last path element of the struct package (another directory, another package)
+    {'SeparatePackage': 'auto', 'TargetPackage': 'spkg'},
 ]
 
 
@@ -211,7 +213,8 @@ def get_batches(tier, seed):
         # (all profiles in the thorough tier); its operations are still drawn from VERIF_SEED
         sink = f'{VERIF}/corpus/sink.json'
         # ('override': default_package_name is the bare package name, the import path comes from import_path_overrides)
-        sink_profiles = [{}, {'Sort': 1, 'SeparatePackage': 'override'}] if tier == 'quick' else PROFILES[:5] + [{'SeparatePackage': 'override'}]
+        sink_profiles = ([{}, {'Sort': 1, 'SeparatePackage': 'override', 'TargetPackage': 'spkg'}] if tier == 'quick'
+                         else PROFILES[:5] + [{'SeparatePackage': 'override'}, {'SeparatePackage': 'auto', 'TargetPackage': 'spkg'}])
         for k, prof in enumerate(sink_profiles):
             futs.append(ex.submit(run_batch, cache, f'sink{k}', seed, plugin_path(rh), scale, prof, sink))
         dirs = [f.result() for f in futs]
